@@ -176,7 +176,7 @@ Section Lexer.
         end
     end.
 
-  (** The main loop of [Lexer::lex] after the repair (fix: d3a0a22): the last-resort matcher is
+  (** The main loop of [Lexer::lex] after the repair (fix: f37a434): the last-resort matcher is
       applied to the unmatched remainder, its elements are kept and the loop goes on; an error
       is returned when it yields no element. *)
   Fixpoint lex_main (fuel : nat) (off : N) (s : str) (acc : list elem) : option (list elem) :=
